@@ -102,7 +102,12 @@ IDsOf(sc, shape) ==
       [] sc = "s1"  -> {"B", "A"}
       [] sc = "s2"  -> {"A", "C"}
 Targets(sc, shape) == {<<"", id>> : id \in IDsOf(sc, shape)} \cup ExtTargets
+Bare == {"bare", "bare2", "barel"}
 Places(shape, W, Q) ==
+    IF shape \in Bare   \* the marker-less objects are fixed; two placements next to them are enough
+    THEN {[hs |-> "top", ho |-> "B", w |-> "direct", ns |-> tg[1], id |-> tg[2], req |-> FALSE] :
+             tg \in {<<"", "A">>, <<"nsa", "X">>}}
+    ELSE
     UNION {{[hs |-> h[1], ho |-> h[2], w |-> w, ns |-> tg[1], id |-> tg[2], req |-> q] :
                w \in W, tg \in Targets(h[1], shape), q \in Q} : h \in Hosts(shape)}
 
